@@ -273,10 +273,14 @@ func genC14(r *Run) {
 		if allValid {
 			cnt = 200
 		}
+		malformedRun := i >= 4 && i < 8 // a long run of malformed nested relays, then ordinary traffic
+		if malformedRun {
+			cnt = 60
+		}
 		var reads [][]byte
 		valid := 0
 		closeAt := -1
-		if r.Rng.Intn(3) == 0 && cnt > 0 && !allValid {
+		if r.Rng.Intn(3) == 0 && cnt > 0 && !allValid && !malformedRun {
 			closeAt = r.Rng.Intn(cnt + 1)
 		}
 		expectInv := 0
@@ -301,7 +305,17 @@ func genC14(r *Run) {
 			if allValid {
 				kindOfRead = 5
 			}
+			if v6 && malformedRun && k < cnt-3 {
+				kindOfRead = 6
+			}
 			switch kindOfRead {
+			case 6: // well-framed relay nesting (1..5 levels) around an undecodable inner message: not dispatched, and it must
+				// leave no trace - the datagrams that follow are decoded as if it had never been read
+				w := []byte{1, 0, byte(k)} // a message header cut short
+				for d := 1 + r.Rng.Intn(5); d > 0; d-- {
+					w = append(append([]byte{12, byte(d)}, r.Bytes(32)...), tlvb(9, w)...)
+				}
+				payload = w
 			case 0: // undecodable
 				payload = r.Bytes(r.Rng.Intn(60))
 				if v6 && len(payload) >= 4 {
